@@ -645,8 +645,11 @@ sub_attr_xlat(kdump_ctx_t *ctx, struct attr_data *base, const char *name,
 		return NULL;
 	}
 	if (attr_revalidate(ctx, attr) != KDUMP_OK) {
+		/* Hand the reason over to the translation context. */
 		addrxlat_ctx_err(ctx->xlatctx, ADDRXLAT_ERR_NODATA,
-				 "%s attribute cannot be revalidated", what);
+				 "%s attribute cannot be revalidated: %s",
+				 what, err_str(&ctx->err));
+		clear_error(ctx);
 		return NULL;
 	}
 	return attr;
